@@ -1218,6 +1218,8 @@ class FDE:
         if isinstance(op, (ast.In, ast.NotIn)) and isclass(b) and isinstance(a, EnumMember):
             return (a.cls == b[1]) == isinstance(op, ast.In)
         if isinstance(op, (ast.In, ast.NotIn)):
+            if isinstance(b, Obj) and '_fde_keys' in b.f:
+                return (a in b.f['_fde_keys']) == isinstance(op, ast.In)      # the keys of the built-in storage, supplied by the rule
             if isinstance(b, (Obj, Opaque)):
                 raise Unsupported('membership test in an abstract value')
             try:
@@ -1498,6 +1500,9 @@ class FDE:
                                (x[0] == 'class' and x[1] in ('list', 'dict', 'tuple', 'str', 'int') and issubclass(o.pytype, {'list': list, 'dict': dict, 'tuple': tuple, 'str': str, 'int': int}[x[1]]))
                                for x in cands)
                 if isinstance(o, Obj) and isinstance(c, tuple) and c[0] == 'class':
+                    if c[1] in ('str', 'int', 'float', 'bool', 'bytes') and o.cls in self.repo.classes and \
+                            any(getattr(self.repo.classes[k_], 'payload', None) == c[1] for k_ in self.repo.mro(o.cls) if k_ in self.repo.classes):
+                        return True       # a scalar node class built as ConfigScalar(<that type>)
                     return self.repo.is_subclass(o.cls, c[1])
                 if isinstance(o, Obj) and o.cls in self.repo.classes and cands and all(isinstance(x, tuple) and len(x) == 2 and x[0] == 'class' for x in cands):
                     mro_ = self.repo.mro(o.cls)
